@@ -72,6 +72,20 @@ def key_of(t):
     return None
 
 
+def _shape(idx):
+    """shape of a position expression inside an external list: the arrays it is computed from (list[i] -> (), list[beg[i] + j] -> ('beg',),
+    list + beg[i] -> ('beg',)).  A validation pass covers the uses that walk the list in the same shape."""
+    if idx is None:
+        return ()
+    out = set()
+    for nd in walk(idx):
+        if isinstance(nd, list) and nd and nd[0] == "i":
+            b0 = strip(nd[1])
+            if is_var(b0):
+                out.add(b0[2])
+    return tuple(sorted(out))
+
+
 class IdxAnalysis:
     """facts (frozenset) per path:
        ('ext', key)            key holds an externally supplied value
@@ -328,6 +342,8 @@ class IdxAnalysis:
                     fs.add(("allge0", name))
                 if ft[0] == "alllt" and ft[1] == r[2]:
                     fs.add(("alllt", name, ft[2]))
+                if ft[0] == "vshape" and ft[1] == r[2]:
+                    fs.add(("vshape", name, ft[2]))
         k = self.ext_of(old, r)
         if k is not None:
             nk = ("v", name)
@@ -365,6 +381,14 @@ class IdxAnalysis:
                 missing.append("upper bound of the right dimension (< %s count; established only: < %s count)" % (cls, "/".join(sorted(lts))))
             else:
                 missing.append("upper bound (< %s count)" % cls)
+        if k[0] == "el" and not missing and not (("ge0", k) in facts and any(ft[0] == "lt" and ft[1] == k for ft in facts)):
+            # the element relies on list-wide facts: they were established by a pass of a particular shape
+            it = strip(t[2])
+            shp = _shape(it[2]) if isinstance(it, list) and it and it[0] == "i" else ()
+            vs = {ft[2] for ft in facts if ft[0] == "vshape" and ft[1] == k[1]}
+            if vs and shp not in vs:
+                missing.append("validation over the same positions (the list was validated as list[%s], it is used as list[%s])" % (
+                    "/".join("+".join(x) or "i" for x in sorted(vs)), "+".join(shp) or "i"))
         ukey = (e[2], fld, show(t[2]), cls)
         origin = None
         if self.f.param_index(k[1]) is None:
@@ -491,9 +515,11 @@ class IdxAnalysis:
                                                 cb = const_of(b2)
                                                 if cb is not None and ((o2 == ">=" and cb >= 0) or (o2 == ">" and cb >= -1)):
                                                     fs.add(("allge0", k2[1]))
+                                                    fs.add(("vshape", k2[1], _shape(strip(a2)[2]) if isinstance(strip(a2), list) and strip(a2)[0] == "i" else ()))
                                                 dc = self.dim_of(facts, b2)
                                                 if dc and o2 == "<":
                                                     fs.add(("alllt", k2[1], dc))
+                                                    fs.add(("vshape", k2[1], _shape(strip(a2)[2]) if isinstance(strip(a2), list) and strip(a2)[0] == "i" else ()))
         for l, op, r in atoms(cond, truth):
             # constant selector parameters (call-site specialisation)
             for a, b_, o in ((l, r, op), (r, l, SWAP[op])):
@@ -516,13 +542,13 @@ class IdxAnalysis:
                     lower_ok = (o == ">=" and cb is not None and cb >= 0) or (o == ">" and cb is not None and cb >= -1) or \
                                (o == "==" and cb is not None and cb >= 0)
                     if lower_ok:
-                        self.add_fact(fs, "ge0", k)
+                        self.add_fact(fs, "ge0", k, tree=a)
                     elif (o == "<" and cb is not None and cb <= 0) or (o == "<=" and cb is not None and cb < 0):
                         fs.add(("rej",))
                     dc = self.dim_of(facts, b_)
                     if dc:
                         if o == "<":
-                            self.add_fact(fs, "lt", k, dc)
+                            self.add_fact(fs, "lt", k, dc, tree=a)
                         elif o in (">=", ">"):
                             fs.add(("rej",))
                 # loop emptiness correlation:  i < num  with i == 0
@@ -539,7 +565,10 @@ class IdxAnalysis:
                         fs.add(("nonpos", sb[2]))
         return [(rv, tmp, frozenset(fs))]
 
-    def add_fact(self, fs, kind, k, cls=None):
+    def add_fact(self, fs, kind, k, cls=None, tree=None):
+        if k[0] == "el":
+            t0 = strip(tree) if tree is not None else None
+            fs.add(("vshape", k[1], _shape(t0[2]) if isinstance(t0, list) and t0 and t0[0] == "i" else ()))
         if kind == "ge0":
             fs.add(("ge0", k))
             if k[0] == "el":
